@@ -158,3 +158,336 @@ pub fn cursor_family(col: &mut Collector) -> (u64, u64) {
     }
     (histories, calls)
 }
+
+// ---------------------------------------------------------------------------
+// MACRO: explicit-state search over *macro operations*
+// ---------------------------------------------------------------------------
+//
+// A macro operation expands (depending on the current model state) into many basic calls
+// - "allocate until out of memory", "free every second held block", ... - so that a search
+// of depth 2-3 over macro operations reaches histories of thousands of calls: exhausted
+// trees, fragmented trees, reservations that moved several times. Every basic call is
+// judged by `oracle::step`; at the end of every macro operation the complete state oracle
+// runs and the probes of the hosting property (drain probe, handoff, ...) are applied.
+
+use std::collections::HashSet;
+use std::time::Instant;
+
+use crate::common::TreeOp;
+use crate::seq::{Probes, SeqParams, SeqStats, State, state_key};
+
+#[derive(Clone, Debug, PartialEq)]
+pub enum Macro {
+    /// allocate until the allocator reports out of memory
+    Exhaust { order: usize, class: u8, local: Option<usize> },
+    /// allocate `n` blocks
+    Take { n: usize, order: usize, class: u8, local: Option<usize> },
+    /// free every held block, ascending or descending
+    FreeAll { class: u8, local: Option<usize>, reverse: bool },
+    /// free the held blocks with even / odd index (sorted by frame)
+    FreeEveryOther { class: u8, local: Option<usize>, phase: usize },
+    /// free the held blocks of one tree
+    FreeTree { tree: usize, class: u8, local: Option<usize> },
+    Drain,
+    Offline(usize),
+    Online(usize),
+}
+
+impl Macro {
+    pub fn short(&self) -> String {
+        fn l(l: &Option<usize>) -> String {
+            l.map(|i| format!("s{i}")).unwrap_or("s-".into())
+        }
+        match self {
+            Macro::Exhaust { order, class, local } => format!("exhaust(o{order},c{class},{})", l(local)),
+            Macro::Take { n, order, class, local } => format!("take({n}x o{order},c{class},{})", l(local)),
+            Macro::FreeAll { class, local, reverse } => {
+                format!("free-all(c{class},{},{})", l(local), if *reverse { "desc" } else { "asc" })
+            }
+            Macro::FreeEveryOther { class, local, phase } => format!("free-every-other({phase},c{class},{})", l(local)),
+            Macro::FreeTree { tree, class, local } => format!("free-tree({tree},c{class},{})", l(local)),
+            Macro::Drain => "drain".into(),
+            Macro::Offline(t) => format!("offline({t})"),
+            Macro::Online(t) => format!("online({t})"),
+        }
+    }
+}
+
+fn macro_alphabet(cfg: &Config, rich: bool) -> Vec<Macro> {
+    let spec = &cfg.classing;
+    let mut out = vec![];
+    let trees = cfg.trees();
+    let mut first_class = None;
+    for &(class, slots) in &spec.classes {
+        first_class.get_or_insert(class);
+        let mut locals: Vec<Option<usize>> = vec![];
+        if slots > 0 {
+            locals.push(Some(0));
+            if slots > 1 && rich {
+                locals.push(Some(slots - 1));
+            }
+        }
+        if slots == 0 || rich {
+            locals.push(None);
+        }
+        for local in locals {
+            out.push(Macro::Exhaust { order: 0, class, local });
+            out.push(Macro::Take { n: 1, order: 0, class, local });
+            out.push(Macro::Take { n: 1, order: llfree::HUGE_ORDER, class, local });
+            if rich {
+                out.push(Macro::Take { n: 65, order: 0, class, local });
+                out.push(Macro::Take { n: 3, order: 6, class, local });
+                out.push(Macro::Exhaust { order: llfree::HUGE_ORDER, class, local });
+                out.push(Macro::Take { n: 1, order: TREE_ORDER, class, local });
+            }
+        }
+    }
+    let c0 = first_class.unwrap_or(0);
+    let l0 = spec.slots(c0).filter(|&s| s > 0).map(|_| 0);
+    out.push(Macro::FreeAll { class: c0, local: None, reverse: false });
+    out.push(Macro::FreeAll { class: c0, local: l0, reverse: true });
+    out.push(Macro::FreeEveryOther { class: c0, local: None, phase: 0 });
+    out.push(Macro::FreeEveryOther { class: c0, local: l0, phase: 1 });
+    for t in 0..trees.min(if rich { 9 } else { 3 }) {
+        out.push(Macro::FreeTree { tree: t, class: c0, local: None });
+    }
+    out.push(Macro::Drain);
+    if rich && trees > 1 {
+        out.push(Macro::Offline(trees - 1));
+        out.push(Macro::Online(trees - 1));
+        out.push(Macro::Offline(0));
+        out.push(Macro::Online(0));
+    }
+    out
+}
+
+impl Runner {
+    fn quiet(&mut self, op: Op, col: &mut Collector) -> Res {
+        let before = matches!(op, Op::Change { .. }).then(|| oracle::tree_view(&self.sut));
+        let res = self.sut.apply(&op);
+        self.ops.push(op.clone());
+        self.calls += 1;
+        let mut viol: Vec<Violation> = vec![];
+        oracle::step(&mut self.model, &self.cfg, &self.classes, &op, &res, before.as_ref(), &self.sut, &mut viol);
+        self.report(viol, col);
+        res
+    }
+    fn report(&self, viol: Vec<Violation>, col: &mut Collector) {
+        for v in viol {
+            let cfg = self.cfg.json();
+            let ops: Vec<_> = self.ops.iter().map(|o| o.json()).collect();
+            col.add(v, || json!({"engine": "seq", "config": cfg, "ops": ops, "family": "macro"}));
+        }
+    }
+    /// Returns false if a call panicked (the state is not usable any more)
+    fn apply_macro(&mut self, m: &Macro, col: &mut Collector) -> bool {
+        let frames = self.cfg.frames;
+        let held = |r: &Runner| -> Vec<(usize, usize)> { r.model.held.iter().map(|(&s, &o)| (s, o)).collect() };
+        let put_all = |r: &mut Runner, blocks: Vec<(usize, usize)>, class: u8, local: Option<usize>, col: &mut Collector| -> bool {
+            for (s, o) in blocks {
+                if r.quiet(Op::Put { frame: s, order: o, class, local }, col).is_panic() {
+                    return false;
+                }
+            }
+            true
+        };
+        match m {
+            Macro::Exhaust { order, class, local } => {
+                for _ in 0..frames + 2 {
+                    match self.quiet(Op::Get { order: *order, class: *class, local: *local, target: None }, col) {
+                        Res::Got(..) => {}
+                        Res::Panic(_) => return false,
+                        _ => break,
+                    }
+                }
+                true
+            }
+            Macro::Take { n, order, class, local } => {
+                for _ in 0..*n {
+                    match self.quiet(Op::Get { order: *order, class: *class, local: *local, target: None }, col) {
+                        Res::Got(..) => {}
+                        Res::Panic(_) => return false,
+                        _ => break,
+                    }
+                }
+                true
+            }
+            Macro::FreeAll { class, local, reverse } => {
+                let mut b = held(self);
+                if *reverse {
+                    b.reverse();
+                }
+                put_all(self, b, *class, *local, col)
+            }
+            Macro::FreeEveryOther { class, local, phase } => {
+                let b: Vec<_> = held(self).into_iter().enumerate().filter(|(i, _)| i % 2 == *phase).map(|(_, b)| b).collect();
+                put_all(self, b, *class, *local, col)
+            }
+            Macro::FreeTree { tree, class, local } => {
+                let b: Vec<_> = held(self).into_iter().filter(|(s, _)| s / TREE_FRAMES == *tree).collect();
+                put_all(self, b, *class, *local, col)
+            }
+            Macro::Drain => !self.quiet(Op::Drain, col).is_panic(),
+            Macro::Offline(t) | Macro::Online(t) => {
+                let op = if matches!(m, Macro::Offline(_)) { TreeOp::Offline } else { TreeOp::Online };
+                !self
+                    .quiet(Op::Change { id: Some(*t), mclass: None, mfree: 0, class: None, op: Some(op) }, col)
+                    .is_panic()
+            }
+        }
+    }
+}
+
+#[derive(Default, Debug, Clone)]
+pub struct MacroStats {
+    pub configs: u64,
+    pub sequences: u64,
+    pub states: u64,
+    pub calls: u64,
+    pub capped: u64,
+    pub max_history_calls: u64,
+    pub depth: usize,
+}
+
+pub struct MacroParams {
+    pub prop: String,
+    pub depth: usize,
+    pub rich: bool,
+    pub probes: Probes,
+    pub max_secs: f64,
+}
+
+fn macro_explore(cfg: &Config, p: &MacroParams, col: &mut Collector) -> MacroStats {
+    let t0 = Instant::now();
+    let mut st = MacroStats { configs: 1, depth: p.depth, ..Default::default() };
+    let Some(mut r) = Runner::new(cfg) else { return st };
+    let alphabet = macro_alphabet(cfg, p.rich);
+    let seq_params = SeqParams {
+        prop: p.prop.clone(),
+        profile: crate::model::Profile::small(),
+        depth: 0,
+        max_states: 0,
+        probes: p.probes.clone(),
+        max_secs: 0.0,
+    };
+    let mut seq_stats = SeqStats::default();
+    let mut visited: HashSet<u128> = HashSet::new();
+    visited.insert(state_key(&r.sut.bufs.snapshot(), &r.model));
+    // depth-first with explicit marks (restore in place)
+    struct Frame {
+        mark: Mark,
+        next: usize,
+    }
+    let mut stack = vec![Frame { mark: r.mark(), next: 0 }];
+    let mut names: Vec<String> = vec![];
+    while let Some(top) = stack.last_mut() {
+        if t0.elapsed().as_secs_f64() > p.max_secs {
+            st.capped = 1;
+            break;
+        }
+        if top.next >= alphabet.len() {
+            stack.pop();
+            names.pop();
+            continue;
+        }
+        let m = alphabet[top.next].clone();
+        top.next += 1;
+        let mark_ops = top.mark.ops;
+        r.reset(&top.mark);
+        let depth = stack.len();
+        let ok = r.apply_macro(&m, col);
+        st.sequences += 1;
+        st.max_history_calls = st.max_history_calls.max(r.ops.len() as u64);
+        if !ok || r.ops.len() == mark_ops {
+            continue; // panicked (reported) or the macro was empty in this state
+        }
+        // complete state oracle + probes of the hosting property
+        let mut viol = vec![];
+        oracle::state(&r.model, &r.sut, true, &mut viol);
+        let blocked = viol.iter().any(|v| v.prop == p.prop || v.prop == "C02" || v.prop == "C01");
+        let bytes = r.sut.bufs.snapshot();
+        let key = state_key(&bytes, &r.model);
+        let new = visited.insert(key);
+        if new && !blocked {
+            st.states += 1;
+            let state = State { bytes, model: r.model.clone(), path: r.ops.clone() };
+            crate::probes::on_state(&state, cfg, &r.sut, &seq_params, &mut seq_stats, &mut viol);
+            r.sut.bufs.restore(&state.bytes);
+        }
+        if !viol.is_empty() {
+            let mut v2 = vec![];
+            for mut v in viol {
+                v.detail = format!("after macro history [{} ; {}]: {}", names.join(" ; "), m.short(), v.detail);
+                v2.push(v);
+            }
+            r.report(v2, col);
+        }
+        if new && !blocked && depth < p.depth {
+            names.push(m.short());
+            stack.push(Frame { mark: r.mark(), next: 0 });
+        }
+    }
+    st.calls = r.calls;
+    st
+}
+
+/// Run the macro search over several configurations on all cores
+pub fn macro_all(cfgs: &[Config], p: &MacroParams) -> (MacroStats, Collector) {
+    let total = std::sync::Mutex::new((MacroStats::default(), Collector::default()));
+    crate::dom::par_for(cfgs.len(), |i| {
+        let mut col = Collector::default();
+        let s = macro_explore(&cfgs[i], p, &mut col);
+        let mut t = total.lock().unwrap();
+        t.0.configs += s.configs;
+        t.0.sequences += s.sequences;
+        t.0.states += s.states;
+        t.0.calls += s.calls;
+        t.0.capped += s.capped;
+        t.0.max_history_calls = t.0.max_history_calls.max(s.max_history_calls);
+        t.0.depth = s.depth;
+        t.1.merge(col);
+    });
+    total.into_inner().unwrap()
+}
+
+pub fn macro_configs(large: bool) -> Vec<Config> {
+    let mut specs = vec![
+        ClassingSpec::simple(1),
+        ClassingSpec::zeroed([1, 1, 1], 1),
+        ClassingSpec::movable(3),
+    ];
+    if large {
+        specs.push(ClassingSpec::simple(2));
+    }
+    let mut frames = vec![2 * TREE_FRAMES + HUGE_FRAMES + 5];
+    if large {
+        frames.push(9 * TREE_FRAMES);
+        frames.push(TREE_FRAMES);
+    }
+    let mut out = vec![];
+    for &n in &frames {
+        if llfree::HUGE_ORDER > 9 && n > 3 * TREE_FRAMES {
+            continue;
+        }
+        for s in &specs {
+            out.push(Config::new(n, s.clone(), InitMode::FreeAll));
+            if large {
+                out.push(Config::new(n, s.clone(), InitMode::AllocAll));
+            }
+        }
+    }
+    if !large {
+        out.push(Config::new(frames[0], specs[0].clone(), InitMode::AllocAll));
+        if llfree::HUGE_ORDER <= 9 {
+            out.push(Config::new(9 * TREE_FRAMES, specs[1].clone(), InitMode::FreeAll));
+        }
+    }
+    out
+}
+
+pub fn macro_coverage(st: &MacroStats) -> serde_json::Value {
+    json!({"macro_engine": "MACRO: depth-first search over macro operations (allocate until OOM, take n, free all / every other / one tree, drain, offline/online) with in-place restore and state dedup; every basic call judged by the reference model, complete state oracle and the probes of the hosting property after every macro operation",
+        "macro_configs": st.configs, "macro_sequences": st.sequences, "macro_states": st.states,
+        "macro_basic_calls": st.calls, "macro_depth": st.depth, "macro_configs_capped": st.capped,
+        "macro_longest_history_calls": st.max_history_calls})
+}
